@@ -79,6 +79,17 @@ func (r rewritingMiddleware) Type() mail.MiddlewareType {
 // Excluded reports whether a generator element is switched off through VERIF_GEN_EXCLUDE (a comma-
 // separated list). Only tools/seedeval.py sets it, when it judges a seeded change on a tree from which
 // a later fix was reverted: the element that exposes the repaired defect must not raise the alarm.
+// RemoveFiles makes every file-system backed source of the message vanish: the on-disk files are
+// removed and the entries of the in-memory file systems deleted.
+func (b *Built) RemoveFiles() {
+	for _, p := range b.FilePaths {
+		_ = os.Remove(p)
+	}
+	for _, fs := range b.FSMaps {
+		delete(fs, "payload.json")
+	}
+}
+
 func Excluded(element string) bool {
 	for _, e := range strings.Split(os.Getenv("VERIF_GEN_EXCLUDE"), ",") {
 		if e == element {
@@ -220,6 +231,9 @@ type Built struct {
 	Armed *bool
 	// FilePaths are the on-disk files created for "file" sources.
 	FilePaths []string
+	// FSMaps are the in-memory file systems behind "iofs" sources (entry "payload.json"): a check that
+	// lets files vanish before a render deletes the entry.
+	FSMaps []fstest.MapFS
 	// after holds what the caller does with its own readers/buffers once everything is attached.
 	after []func()
 }
@@ -585,6 +599,7 @@ func Build(spec *MsgSpec, env *Env) (*Built, error) {
 			}
 		case "iofs":
 			fsys := fstest.MapFS{"payload.json": &fstest.MapFile{Data: f.Content}}
+			b.FSMaps = append(b.FSMaps, fsys)
 			fopts = append(fopts, mail.WithFileName(f.Name))
 			if embed {
 				err = m.EmbedFromIOFS("payload.json", fsys, fopts...)
